@@ -6,7 +6,9 @@ SPEC = dict(
     level_text="A three-rule reference log (append; an immediate repeat replaces the last entry; keep the newest MaxSize) is stepped next to a "
                "real *history.SearchHistory through thousands of random histories of 1-600 operations (AddEntry, Save, Load on the same "
                "object and on fresh objects sharing the file, Clear, views); after every step the entries are compared field by field, "
-               "every Save is read back by a fresh object, and the recent / top / stats / pattern views are recomputed from the entries. "
+               "every Save is read back by a fresh object, and the recent / top / stats / pattern views are recomputed from the entries; now and then another "
+               "writer puts a valid history without an entries list in place ({} / null / entries: null) before a Load on the object in use; a few histories have "
+               "a maximum of 101-1000 and 100-300 different queries. "
                "Separately, thousands of file contents (as Save writes them with every kind of max_size, wrong types, duplicate keys, every "
                "truncation of a valid file with and without a byte-order mark, byte flips, random bytes, every file of one and two bytes, every "
                "file of three (thorough: four) bytes over 30 bytes significant to a JSON / UTF-8 reader, valid files whose entries are not in "
@@ -26,10 +28,10 @@ SPEC = dict(
          "histfiles: case = one file content; non-trivial = a distinct content that is a valid JSON object or a truncation of a valid "
          "file. evaluations = histories + files (operations are in coverage.histmodel_operations).",
     floors=T({"cli-history-sessions": 40, "cli-history-with-repeats": 15, "evaluations": 7500, "distinct_nontrivial": 2500, "trim": 1500, "collapse": 2500, "save-load-cycles": 2500, "clear": 1000,
-              "save-verified": 20000, "files-valid": 600, "files-truncated": 600, "files-garbage": 800, "files-maxsize-nonpositive": 300, "files-short-exhaustive": 92792, "files-timestamps-out-of-order": 40, "files-over-4MiB": 5, "files-ending-with-the-repeated-query": 80},
+              "save-verified": 20000, "files-valid": 600, "files-truncated": 600, "files-garbage": 800, "files-maxsize-nonpositive": 300, "files-short-exhaustive": 92792, "files-timestamps-out-of-order": 40, "files-over-4MiB": 5, "files-ending-with-the-repeated-query": 80, "large-histories-viewed": 60, "files-without-an-entries-list-put-in-place": 1000},
              {"evaluations": 150000, "distinct_nontrivial": 50000, "trim": 30000, "collapse": 70000, "save-load-cycles": 50000,
               "clear": 20000, "save-verified": 400000, "files-valid": 12000, "files-truncated": 12000, "files-garbage": 16000,
-              "files-maxsize-nonpositive": 6000, "files-short-exhaustive": 902792, "files-timestamps-out-of-order": 900, "files-over-4MiB": 5, "files-ending-with-the-repeated-query": 1500}),
+              "files-maxsize-nonpositive": 6000, "files-short-exhaustive": 902792, "files-timestamps-out-of-order": 900, "files-over-4MiB": 5, "files-ending-with-the-repeated-query": 1500, "large-histories-viewed": 600, "files-without-an-entries-list-put-in-place": 20000}),
     assumptions=[
         "the maximum asserted is the object's own MaxSize field: whatever positive value NewSearchHistory / Load leave there (a requested "
         "maximum <= 0 may be replaced by any positive default); in histmodel a MaxSize <= 0 is itself reported (clause bound)",
